@@ -4,8 +4,10 @@ package props
 // End-to-end: the real binary, real sockets, real signals, real cache files.
 
 import (
+	"bytes"
 	"encoding/json"
 	"fmt"
+	"io"
 	"net"
 	"os"
 	"path/filepath"
@@ -87,7 +89,7 @@ type c15Case struct {
 }
 
 const c15Rule = "case = 1..3 stop/start cycles of the real collector binary (each instance with all CPUs or its affinity restricted to 1, 2, 4 or 8; 2..8 workers per protocol; in about 3 of 4 cases a generated subset of the four protocols is switched off by configuration, at least one of IPFIX / NetFlow v9 stays on; rawSocket sink and restful stats owned by the harness, per-instance pid and cache files (in a quarter of the cases given as relative names with a working directory other than the configuration's), in a quarter of the cases on a file system other than the temporary directory's) with 1..8 exporters on 127.0.0.x and ::1 (in a quarter of the cases without ::1 the listeners are bound to 127.0.0.1, so that the collector sees 4-octet exporter addresses): " +
-	"per cycle new IPFIX / NetFlow v9 templates are announced (or all known ones redefined with a shorter definition, so that the next cache file is shorter than the one it replaces; or, in a quarter of the later cycles, a quiet life: nothing new, one known template re-announced with a single specifier changed — a scope field if it has any) and acknowledged (a data message using them reached the sink), sFlow/NetFlow v5 noise, in 1 cycle of 7 a further exporter announcing 1500 or 3000 templates first (a cache file well above a megabyte), a data burst, then SIGTERM or SIGINT after a drawn delay (in 5 of 8 cycles sent once, otherwise repeated 1..1100 ms later), " +
+	"per cycle new IPFIX / NetFlow v9 templates are announced (or all known ones redefined with a shorter definition, so that the next cache file is shorter than the one it replaces; or, in a quarter of the later cycles, a quiet life: nothing new, one known template re-announced with a single specifier changed — a scope field if it has any) and acknowledged (a data message using them reached the sink), sFlow/NetFlow v5 noise, in 1 cycle of 4 a further exporter announcing 1500, 3000, 6000 or 12 000 templates first (a cache file of megabytes; some 240 of them, spread over the population, are seen to work before the signal and must work after every later restart without being resent), a data burst, then SIGTERM or SIGINT after a drawn delay (in 5 of 8 cycles sent once, otherwise repeated 1..1100 ms later), " +
 	"optionally with traffic (data and announcements of fresh template ids; in a quarter of those cycles dense and unpaced, so that the receive queue is full at the signal) continuing through the shutdown window, or with single late datagrams 0.9..2.1 s after the signal following a quiet period; in a fifth of the later cycles the collector first lives once with producer-enabled: false (data, sFlow and NetFlow v5 datagrams, the cycle's signal: exit 0 within 6 s); in a quarter of the later cycles an instance is first started while one of its UDP ports is held by another process (and signalled 1.2 s later if still there); a final verification restart follows the last cycle; " +
 	"oracle per cycle = exit status 0 within 6 s of the signal, stderr free of panic / fatal error / concurrent map, both cache files exist, load and decode data for every acknowledged (exporter,id) to the reference decode, " +
 	"and after the restart data sent WITHOUT templates for every acknowledged (exporter,id) is published with the reference payload; " +
@@ -200,7 +202,7 @@ func genC15(t *rapid.T) c15Case {
 		cy.RepeatMS = rapid.SampledFrom([]int{0, 0, 0, 1, 50, 300, 900, 1100}).Draw(t, "repeatms")
 		cy.BusyStart = i > 0 && rapid.IntRange(0, 3).Draw(t, "busystart") == 0
 		cy.IdleProducerLife = i > 0 && rapid.IntRange(0, 4).Draw(t, "idleproducer") == 0
-		cy.Bulk = rapid.SampledFrom([]int{0, 0, 0, 0, 0, 0, 0, 0, 0, 0, 0, 0, 0, 1500, 3000}).Draw(t, "bulk")
+		cy.Bulk = rapid.SampledFrom([]int{0, 0, 0, 0, 0, 0, 0, 0, 0, 0, 0, 0, 1500, 3000, 6000, 12000}).Draw(t, "bulk")
 		cy.Burst = rapid.SampledFrom([]int{0, 5, 50, 300}).Draw(t, "burst")
 		cy.Signal = rapid.SampledFrom([]string{"TERM", "TERM", "INT"}).Draw(t, "signal")
 		cy.DelayMS = rapid.SampledFrom([]int{0, 0, 1, 10, 100}).Draw(t, "delay")
@@ -309,6 +311,21 @@ func runC15(c *c15Case) (v verdict, sig string, err error) {
 		r.exps = append(r.exps, ex)
 	}
 	var acked []*c15Key
+	// templates of the bulk population that were seen to work before a signal: they must survive restarts like any other
+	type bulkKey struct {
+		proto string
+		tpl   wire.Template
+	}
+	var bulkAcked []bulkKey
+	bulkData := func(b *bulkKey, seq uint32) []byte {
+		tp := b.tpl
+		rec := wire.Record{}
+		for f := range tp.Fields {
+			rec.Vals = append(rec.Vals, wire.Hex{byte(tp.ID >> 8), byte(tp.ID), byte(f), byte(seq)})
+		}
+		m := wire.Msg{Proto: b.proto, Seq: seq, Time: 1700000002, Domain: 99, Count: 1, Sets: []wire.Set{{Kind: "data", Tpl: &tp, Recs: []wire.Record{rec}}}}
+		return m.Bytes()
+	}
 	inflightAtSignal := false
 	disabled := map[string]bool{}
 	for _, d := range c.Disabled {
@@ -445,6 +462,30 @@ func runC15(c *c15Case) (v verdict, sig string, err error) {
 			v.label(true, "restart-decode-checked")
 			v.label(c.BindV4, "listeners-bound-to-an-ipv4-address")
 		}
+		if len(bulkAcked) > 0 {
+			bex, e := openExporter(253)
+			if e != nil {
+				return fail("", "harness: cannot bind the bulk exporter: %v", e)
+			}
+			for i := range bulkAcked {
+				b := &bulkAcked[i]
+				r.seq++
+				data := bulkData(b, r.seq)
+				o, e := sequentialDecode(b.proto, r.replica[b.proto], bex.addr, data, nil)
+				if e != nil || !o.published {
+					bex.conn.Close()
+					return fail("", "harness: bulk reference decode: %v", e)
+				}
+				bex.send(proc.port(b.proto), data)
+				if !sink.waitFor(o.payload, 5*time.Second) {
+					bex.conn.Close()
+					return fail("template-lost", "after the restart, data for %s template %d of the bulk exporter %v (one of %d templates of a large population that were seen to work before the signal) was not published within 5 s without resending the template; collector log tail: %s",
+						b.proto, b.tpl.ID, bex.addr, len(bulkAcked), tail(proc.stderrText(), 600))
+				}
+			}
+			bex.conn.Close()
+			v.label(true, "bulk-population-checked-after-the-restart")
+		}
 		if verification {
 			proc.signal(syscall.SIGTERM)
 			if !proc.waitExitFair(6 * time.Second) {
@@ -469,6 +510,7 @@ func runC15(c *c15Case) (v verdict, sig string, err error) {
 				return fail("", "harness: cannot bind the bulk exporter: %v", e)
 			}
 			elems := []uint16{8, 12, 15, 10, 14, 16, 17, 21, 22, 1, 2, 7, 11, 4}
+			var bulkTpls []wire.Template
 			for id := 0; id < cy.Bulk; {
 				m := wire.Msg{Proto: bproto, Seq: uint32(600000 + id), Time: 1700000000, Domain: 99, Sets: []wire.Set{{Kind: "tpl"}}}
 				for k := 0; k < 10 && id < cy.Bulk; k, id = k+1, id+1 {
@@ -481,12 +523,34 @@ func runC15(c *c15Case) (v verdict, sig string, err error) {
 				}
 				m.Count = uint16(len(m.Sets[0].Tpls))
 				bex.send(proc.port(bproto), m.Bytes())
+				if _, perr := r.replica[bproto].decodeFlow(bex.addr, m.Bytes()); perr != nil {
+					return fail("", "harness: %v", perr)
+				}
+				bulkTpls = append(bulkTpls, m.Sets[0].Tpls...)
 				if id%100 == 0 {
 					time.Sleep(time.Millisecond)
 				}
 			}
+			// a sample of the population is seen to work now (UDP may have lost an announcement: those are not counted)
+			// and must still work after every later restart
+			bulkAcked = nil
+			step := len(bulkTpls)/240 + 1
+			for i := 0; i < len(bulkTpls); i += step {
+				b := bulkKey{proto: bproto, tpl: bulkTpls[i]}
+				r.seq++
+				data := bulkData(&b, r.seq)
+				o, e := sequentialDecode(bproto, r.replica[bproto], bex.addr, data, nil)
+				if e != nil || !o.published {
+					return fail("", "harness: bulk reference decode: %v", e)
+				}
+				bex.send(proc.port(bproto), data)
+				if sink.waitFor(o.payload, 300*time.Millisecond) {
+					bulkAcked = append(bulkAcked, b)
+				}
+			}
 			bex.conn.Close()
 			v.label(true, "bulk-template-population")
+			v.label(cy.Bulk > 4096, "bulk-population>4096-templates")
 		}
 		// new templates (and redefinitions of known ones): announce, then data until published (= acknowledged)
 		toAnnounce := make([]*c15Key, 0, len(cy.NewKeys)+len(cy.Redefine))
@@ -685,8 +749,23 @@ func runC15(c *c15Case) (v verdict, sig string, err error) {
 			if e != nil {
 				return fail("cache-file", "%s template cache file missing after shutdown: %v", proto, e)
 			}
+			// complete: the file is one JSON document, or a sequence of complete documents (how the collector lays the
+			// cache out in the file is its own business), never a document that breaks off
 			if !json.Valid(b) {
-				return fail("cache-file", "%s template cache file is not complete JSON (%d octets)", proto, len(b))
+				dec := json.NewDecoder(bytes.NewReader(b))
+				ndocs := 0
+				for {
+					var doc json.RawMessage
+					if e := dec.Decode(&doc); e == io.EOF {
+						break
+					} else if e != nil {
+						return fail("cache-file", "%s template cache file is not complete JSON (%d octets, breaks off in document %d: %v)", proto, len(b), ndocs+1, e)
+					}
+					ndocs++
+				}
+				if ndocs == 0 {
+					return fail("cache-file", "%s template cache file holds no JSON document (%d octets)", proto, len(b))
+				}
 			}
 			loaded, perr := safeLoad(proto, file)
 			if perr != nil {
